@@ -66,8 +66,6 @@ PARTIAL_ARGUMENTS = {
     ("CParser._build_parameter_declaration", "spec['type'][-1]"): "guarded by len(spec['type']) > 1 earlier in the same and-chain",
     ("CParser._fix_decl_name_type", "typename[0]"): "else-branch of `if not typename`",
     ("CParser._parse_decl_body_with_spec", "$(spec['type'])[0]"): "guarded by len(ty) == 1 in the same and-chain / if",
-    ("CParser._parse_struct_declaration", "$(self._parse_specifier_qualifier_list())['type'][0]"): "inside `if len(spec['type']) == 1`",
-    ("CParser._parse_type_name", "$(self._parse_specifier_qualifier_list())['type'][0]"): "inside `elif spec['type']` (non-empty)",
     ("CParser._parse_pragmacomp_or_statement", "$(self._parse_pppragma_directive_list())[0]"): "_parse_pppragma_directive_list is entered under look-ahead PPPRAGMA/_PRAGMA and its loop runs at least once",
     ("CParser._parse_initializer_list", "$([self._parse_initializer_item()])[0]"): "items is built as a one-element list display",
     ("CParser._parse_initializer_item", "$(None | self._parse_designation())[0]"): "inside `if designation is not None`; _parse_designation is entered under look-ahead LBRACKET/PERIOD and the loop of _parse_designator_list therefore runs at least once",
@@ -77,8 +75,6 @@ PARTIAL_ARGUMENTS = {
     ("_TokenStream.peek", "self._buffer[self._index + k - 1]"): "_fill(k) has just extended the buffer to at least _index + k entries or appended the end-of-input marker, and k >= 1",
     ("_TokenStream.next", "self._buffer[self._index]"): "_fill(1) has just made sure the entry exists",
     ("CLexer.token", "$(self._lexdata)[self._pos]"): "inside `while self._pos < n`",
-    ("CLexer.token", "$(self._handle_pppragma())[1]"): "inside `if len(toks) > 1`",
-    ("CLexer.token", "$(self._handle_pppragma())[0]"): "inside `if len(toks) > 0`",
     ("CLexer._match_token", "$(self._lexdata)[$(self._pos)]"): "called from token() only while _pos < len(text)",
     ("CLexer._match_token", "$(($, $, $, $, $) | ($, $.tok_type, $.literal, _RegexAction.TOKEN, None) | None)[0]"): "right operand of `best is None or ...`",
     ("CLexer._match_token", "_regex_actions[$($.lastgroup | 'TYPEID' | _keyword_map.get($, 'ID') | item1 of $)]"): "tok_type is the name of a master-regex group and the table is built from the same rule list (checked when the model is built)",
@@ -328,6 +324,26 @@ def check(ctx):
                 ctx.oblige("R-C06.3", f"{q}: {alpha_norm(n)}", ok, sample={"rule": "R-C06.3", "function": q, "construct": alpha_norm(n), "classes lacking it": missing, "verdict": "guarded / total" if ok else "UNGUARDED"})
                 if not ok:
                     viol("R-C06.3", mod, q, n, f"hetero:{q}:{alpha_norm(n)}", f"`{alpha_norm(n)}` reads .{n.attr} of a type-specifier list element, but the list can hold {missing} nodes which have no such attribute, and no isinstance test guards the access: AttributeError escapes")
+    # (b2) conversions of input text that can raise ValueError (int / float of a matched string: CPython limits the length of the
+    #      digit string, rejects suffixes) are made inside a try that handles ValueError
+    for mod, q, fn in funcs:
+        for n in ast.walk(fn):
+            if isinstance(n, ast.Call) and isinstance(n.func, ast.Name) and n.func.id in ("int", "float") and n.args and not isinstance(n.args[0], ast.Constant):
+                cur_ = n
+                handled = False
+                while cur_ is not None and cur_ is not fn:
+                    par = getattr(cur_, "_parent", None)
+                    if isinstance(par, ast.Try) and any(cur_ is st for st in par.body):
+                        for h in par.handlers:
+                            names = {x.id for x in ast.walk(h.type) if isinstance(x, ast.Name)} if h.type is not None else {"BaseException"}
+                            if names & {"ValueError", "Exception", "BaseException"}:
+                                handled = True
+                    if isinstance(par, ast.FunctionDef) and par is not fn:
+                        pass
+                    cur_ = par
+                ctx.oblige("R-C06.3", f"{q}: {S.unparse(n)[:40]} handles ValueError", handled, sample={"rule": "R-C06.3", "function": q, "construct": S.unparse(n)[:60], "verdict": "inside try/except ValueError" if handled else "UNGUARDED"})
+                if not handled:
+                    viol("R-C06.3", mod, q, n, f"conversion:{q}:{alpha_norm(n, fn)[:60]}", f"`{S.unparse(n)[:60]}` converts text of the input and can raise ValueError (over-long digit strings, unexpected characters) outside any try that handles it: the exception escapes parse()")
     # (c0) mechanical backing of the recorded argument "the scope stack is never empty"
     from . import c04
     c04.scope_stack_never_empty(ctx, "R-C06.3")
